@@ -139,9 +139,11 @@ Section WithMode.
 
   (** [update_sync_samples] *)
   Definition update_sync_samples (t : wtables) (sample_id : N) (is_sync : bool) : wtables :=
-    if negb is_sync then t else
     mkWt (wt_stsc t) (wt_stsz_size t) (wt_stsz_count t) (wt_stsz_sizes t) (wt_co64 t) (wt_stts t) (wt_ctts t)
-         (Some (match wt_stss t with Some l => l ++ [sample_id] | None => [sample_id] end)).
+         (Some (match wt_stss t with
+                | Some l => if is_sync then l ++ [sample_id] else l
+                | None => if is_sync then [sample_id] else []      (* created on the first sample *)
+                end)).
 
   Definition is_chunk_full (w : twriter) (c : wchunk) : bool :=
     if 0 <? tw_samples_per_chunk w then tw_samples_per_chunk w <=? wc_chunk_samples c
